@@ -10,7 +10,7 @@ Local Open Scope N_scope.
 Lemma status_eqb_refl s : status_eqb s s = true. Proof. destruct s; reflexivity. Qed.
 Lemma optN_eqb_refl o : optN_eqb o o = true. Proof. destruct o; cbn; [apply N.eqb_refl|reflexivity]. Qed.
 Lemma orow_eqb_refl r : orow_eqb r r = true.
-Proof. unfold orow_eqb. rewrite !N.eqb_refl, status_eqb_refl, optN_eqb_refl. reflexivity. Qed.
+Proof. unfold orow_eqb. rewrite N.eqb_refl, status_eqb_refl, optN_eqb_refl. reflexivity. Qed.
 Lemma rows_eqb_refl l : rows_eqb l l = true.
 Proof.
   unfold rows_eqb. rewrite Nat.eqb_refl. cbn.
@@ -526,3 +526,24 @@ Definition ex_ops : list op :=
    OpAddCheck 2 2 0; OpAddStore 2; OpAddEnq 2; OpAddMark 2;
    OpAddCheck 3 3 0; OpAddStore 3].
 Definition ex_state : st := fst (run (init (mkcfg 1 1 1 1 1)) ex_ops).
+
+(* a task is never in the executor twice at the same time *)
+Lemma no_double_execution s m t :
+  reachable s -> s_mgr s = Some m -> (count_occ N.eq_dec (executing m) t <= 1)%nat.
+Proof.
+  intros R M. apply reachable_inv in R. destruct R as [_ H]. rewrite M in H. destruct H as [Hh _].
+  pose proof (held_le1 (s_store s) m t Hh) as L. unfold held in L. rewrite !count_occ_app in L. lia.
+Qed.
+
+(* an accepted Add (its store call answered nil or ErrTaskExists) leaves the task stored *)
+Lemma accepted_is_stored s m a b af t d :
+  s_mgr s = Some m -> pick (fun p => fst p =? a) (m_add m) = Some (b, (a, AStore t d), af) ->
+  storedb t (s_store (fst (step s (OpAddStore a)))) = true /\ snd (step s (OpAddStore a)) <> OIllegal.
+Proof.
+  destruct s as [c sto now mg log]. cbn [s_mgr s_store]. intros -> P.
+  unfold step. cbn [s_mgr s_cfg s_store s_now]. rewrite P.
+  destruct (add_row t (if d =? 0 then Pending else Failed) d now sto) as [sto'|] eqn:A.
+  - apply add_row_some in A as [A ->]. destruct (d =? 0); cbn; (split; [|discriminate]);
+      unfold storedb; rewrite existsb_app; cbn; rewrite N.eqb_refl, orb_true_r; reflexivity.
+  - apply add_row_none in A. cbn. split; [assumption|discriminate].
+Qed.
